@@ -118,6 +118,18 @@ class Opaque(object):
         return "<opaque %s>" % self.name
 
 
+class FileV(object):
+    """A file handle of the modelled file system (interp.fs: name -> stored value); used with assumed
+    contracts for yaml/joblib dump/load."""
+
+    def __init__(self, name, mode):
+        self.name = name
+        self.mode = mode
+
+    def __repr__(self):
+        return "<file %r %s>" % (self.name, self.mode)
+
+
 class ModuleV(object):
     def __init__(self, name, path=None):
         self.name = name
@@ -384,6 +396,7 @@ class Interp(object):
         self.functions_seen = {}  # qualname -> (path, lineno) of every repo function body executed
         self.stmt_budget = 2000000
         self.feasible_fn = None
+        self.fs = {}
         from .npmodel import NPModel, install_builtins
         self.np = NPModel(self)
         self.builtins = install_builtins(self)
